@@ -304,18 +304,26 @@ def run(args):
         (base / "ford" / fname).write_text(new_src, encoding="utf-8")
         known = {(k["rule"], k["construct"]) for k in json.loads((V / "known_findings.json").read_text())["findings"]
                  if k.get("status") == "known"}
-        for p in props:
+        def one(p, ctx):
             mod = importlib.import_module(f"sa.rules.{p.lower()}")
             try:
-                rep, err = evaluate(p, [r for r in mod.RULES if r.tier != "thorough"], Ctx(base), "quick")
+                rep, err = evaluate(p, [r for r in mod.RULES if r.tier != "thorough"], ctx, "quick")
             except AnalysisError as e:
                 rep, err = None, str(e)
             if err is not None:
-                out[p] = ["ANALYSIS-ERROR " + err[:200]]
-                continue
+                return ["ANALYSIS-ERROR " + err[:200]]
             new = sorted({(o.rule, o.construct[:80], o.detail[:120]) for o in rep.obs if not o.ok and (o.rule, o.construct) not in known})
-            if new:
-                out[p] = [f"{r} {c} :: {d}" for r, c, d in new][:4]
+            return [f"{r} {c} :: {d}" for r, c, d in new][:4] if new else None
+        try:
+            shared = Ctx(base)
+        except AnalysisError as e:
+            return index, label, {"*": ["ANALYSIS-ERROR " + str(e)[:200]]}
+        for p in props:
+            v = one(p, shared)
+            if v is not None:
+                v = one(p, Ctx(base))      # re-confirmed with a model of its own, as ./check would see it
+            if v is not None:
+                out[p] = v
     finally:
         shutil.rmtree(base, ignore_errors=True)
     return index, label, out
@@ -332,6 +340,14 @@ def main():
     kinds = opt("--kinds", ",".join(TRANSFORMS)).split(",")
     jobs = int(opt("--jobs", "12"))
     start = int(opt("--start", "0"))
+    if "--dump" in a:       # write the variant's changed file as a unified diff to stdout
+        import difflib
+        v = make_variant(seed, start, kinds)
+        if v:
+            old = (REPO / "ford" / v[0]).read_text(encoding="utf-8")
+            canon = ast.unparse(ast.parse(old)) + "\n"
+            sys.stdout.writelines(difflib.unified_diff(canon.splitlines(True), v[2].splitlines(True), "canonical/" + v[0], v[1], n=4))
+        return 0
     with ProcessPoolExecutor(max_workers=jobs) as ex:
         results = list(ex.map(run, [(seed, i, kinds, props) for i in range(start, start + n)]))
     alarms = 0
